@@ -23,14 +23,14 @@ RULE = ("writer: shapes with 1-24 axes (mostly length 1, one or two longer with 
         "distinct = digest(file bytes).")
 ASSUMPTIONS = ["numpy %s is the reference reader/writer" % np.__version__, "NEP-1 rules re-implemented from the spec text in vf/oracle/npyfmt.py"]
 FLOORS = {"quick": {"evaluations": 600, "distinct_nontrivial": 500, "counts": {"writer_files": 128, "reader_files": 300, "reject_files": 40}},
-          "thorough": {"evaluations": 12000, "distinct_nontrivial": 9000, "counts": {"writer_files": 4000, "reader_files": 6000, "reject_files": 400}}}
+          "thorough": {"evaluations": 30000, "distinct_nontrivial": 25000, "counts": {"writer_files": 5000, "reader_files": 20000, "reject_files": 400}}}
 NSHARD = 16
 DTYPES = ["f4", "f8", "i1", "i2", "i4", "i8", "u1", "u2", "u4", "u8"]
 
 
 def plan(tier, seed):
     q = tier == "quick"
-    return [{"name": "s%d" % i, "i": i, "writer_reps": 1 if q else 16, "reader_reps": 1 if q else 12} for i in range(NSHARD)]
+    return [{"name": "s%d" % i, "i": i, "writer_reps": 1 if q else 40, "reader_reps": 1 if q else 60} for i in range(NSHARD)]
 
 
 def dict_len(shape):
